@@ -622,6 +622,8 @@ static void parse_password(struct iauth_request *req, char password[])
         if (plugin->password != NULL)
             plugin->password(req, password);
     }
+    /* A password can release a hold (e.g. "-!"), so re-evaluate. */
+    iauth_check_request(req);
 }
 
 static void parse_user_info(struct iauth_request *req, int argc, char *argv[])
